@@ -21,12 +21,12 @@ const jBlock = 32768
 var c12Lens = []int{0, 1, 7, 32761, 32760, 32759, 32758, 32757, 32756, 32755, 32754, 32753, 32768, 32769, 65539}
 
 type c12Task struct {
-	Kind   string `json:"kind"` // roundtrip | trunc | flip | zero
-	Lens   []int  `json:"lens"`
-	Mask   int    `json:"mask"` // bit i: Flush after record i
-	From   int    `json:"from"` // damage offsets [From, To)
-	To     int    `json:"to"`
-	Near   bool   `json:"near"` // only offsets within 16 bytes of a chunk/block boundary
+	Kind   string  `json:"kind"` // roundtrip | trunc | flip | zero
+	Lens   []int   `json:"lens"`
+	Mask   int     `json:"mask"` // bit i: Flush after record i
+	From   int     `json:"from"` // damage offsets [From, To)
+	To     int     `json:"to"`
+	Near   bool    `json:"near"`             // only offsets within 16 bytes of a chunk/block boundary
 	Tuples [][]int `json:"tuples,omitempty"` // roundtrip: many tuples per task (all masks each)
 }
 
